@@ -252,10 +252,6 @@ func (s *Stream) handleForwardTSNForUnordered(newCumulativeTSN uint32) {
 		s.lock.Lock()
 		defer s.lock.Unlock()
 
-		if !s.unordered {
-			return // ordered chunks are handled by handleForwardTSNOrdered method
-		}
-
 		// Remove all chunks older than or equal to the new TSN from
 		// the reassemblyQueue.
 		s.reassemblyQueue.forwardTSNForUnordered(newCumulativeTSN)
